@@ -4,7 +4,7 @@ import random
 from vf import gen, ref
 from vf.core import exc_desc
 from vf.lazy import ck, libx, common
-from vf.monitors import algos
+from vf.monitors import algos, large
 
 PROP = "C12"
 TECHNIQUE = ('runtime monitoring of Borda (both variants) against exact rational means; metamorphic monitors (permuted rankings, renamed elements); aggregation again after an in-place mutation')
@@ -22,8 +22,12 @@ FAMILIES = ["unifying", "unifying_half", "induced", "induced_half"]
 
 def plan(tier, seed):
     if tier == "quick":
-        return [{"n_cases": 420, "mode": "A", "hashseed": i % 3} for i in range(8)]
-    return [{"n_cases": 6000, "mode": "A", "hashseed": i % 4} for i in range(12)]
+        return [{"n_cases": 420, "mode": "A", "hashseed": i % 3} for i in range(8)] + \
+               [{"n_cases": k, "mode": "A", "params": {"xlarge": prof}, "hashseed": i % 2}
+                for i, (prof, k) in enumerate([("wide", 6), ("tall", 6), ("cells", 5), ("huge", 1)])]
+    return [{"n_cases": 6000, "mode": "A", "hashseed": i % 4} for i in range(12)] + \
+           [{"n_cases": k, "mode": "A", "params": {"xlarge": prof}, "hashseed": i % 4}
+            for i, (prof, k) in enumerate([("sweep", 26), ("tall", 20), ("cells", 20), ("huge", 2), ("huge", 2)])]
 
 
 def family_lookalike(rng):
@@ -35,6 +39,12 @@ def family_lookalike(rng):
 
 
 def gen_case(rng, ctx):
+    if ctx.params.get("xlarge"):
+        case = large.gen_large(rng, profiles=[ctx.params["xlarge"]], index=ctx.index)
+        name = rng.choice(FAMILIES)
+        case["scheme"] = gen.scale(ref.PRESETS[name], rng.choice([1.0, 1.0, 2.0, 0.5, 3.0]))
+        case["dcls"], case["scls"], case["bucket_id"] = "xlarge", "family:" + name, rng.random() < 0.5
+        return case
     cls, ds = gen.dataset(rng, classes="D1 D2 D2 D3 D3 D4 D5 D6 D7 D8 D22 D22 D17", nmax=9, mmax=7)
     ds = libx.normalise_raw(ds)
     which = rng.random()
@@ -49,7 +59,45 @@ def gen_case(rng, ctx):
             "perm_seed": rng.randrange(10 ** 6)}
 
 
+def check_xlarge(case, ctx):
+    """size classes of vf/monitors/large.py (incl. 3000 elements x 40 rankings: position totals above 1e5): the consensus
+    against exact mean scores"""
+    lc = large.Context(case)
+    ubi = case["bucket_id"]
+    sub = large.slim(case, bucket_id=ubi)
+    common.set_case(ctx, sub)
+    fam = ref.borda_family(case["scheme"])
+    st, cons = large.run("BordaBucket" if ubi else "Borda", lc, True, 0)
+    if st != "ok":
+        ctx.violation(f"C12/raises-{type(cons).__name__}", f"Borda did not answer on {case['n']} elements x {case['m']} rankings "
+                      f"(family {fam}): {exc_desc(cons)}", sub)
+        return
+    ctx.count("accepted")
+    ctx.count("xlarge_judged")
+    ctx.count("xlarge:" + case["profile"])
+    means = lc.refnp.borda(lc.ds, lc.elems, ubi, fam == "unified")
+    order = sorted(set(means))
+    expected = [[e for e, mval in zip(lc.elems, means) if mval == val] for val in order]
+    if max(m_.numerator for m_ in means) >= 10 ** 5 or case["profile"] == "huge":
+        ctx.count("xlarge_position_totals_above_1e5")
+    got = libx.raw_ranking(cons.consensus_rankings[0])
+    if ref.canon(got) != ref.canon(expected):
+        k = next((i for i, (a, b) in enumerate(zip(got, expected)) if set(a) != set(b)), min(len(got), len(expected)))
+        how = "unified" if fam == "unified" else "skipped"
+        ctx.violation(f"C12/not-ordered-by-mean-score:{how}:{'bucket-id' if ubi else 'elements-before'}",
+                      f"{case['n']} elements x {case['m']} rankings: the consensus ({len(got)} buckets) differs from the "
+                      f"ranking by increasing mean score ({len(expected)} buckets) from bucket {k} on; means there: "
+                      f"{[str(means[lc.elems.index(e)]) for b in expected[k:k + 2] for e in b][:4]}", sub,
+                      observed=got[k:k + 2], expected=expected[k:k + 2])
+        return
+    if any(len(b) >= 2 for b in got):
+        ctx.count("outputs_with_tie")
+    ctx.nontrivial({"n": case["n"], "m": case["m"], "d": gen.digest(case["ds"]), "ubi": ubi, "fam": fam})
+
+
 def check_case(case, ctx):
+    if case.get("dcls") == "xlarge":
+        return check_xlarge(case, ctx)
     ds, sch, ubi = case["ds"], case["scheme"], case["bucket_id"]
     common.set_case(ctx, case)
     dataset = libx.mk_dataset(ds)
@@ -154,7 +202,10 @@ def reach(counters, tier, info):
                 v = counters.get(f"cell:{fam}:{ubi}:{comp}", 0)
                 out.append({"name": f"family {fam} x bucket_id={ubi} x {comp}", "observed": v, "required": 100 * k,
                             "ok": v >= 100 * k})
-    for name, key, need in [("outputs with a tie", "outputs_with_tie", 300 * k),
+    for name, key, need in [("datasets of 63-3000 elements / 40-257 rankings judged against exact mean scores", "xlarge_judged",
+                             14 if tier == "quick" else 50),
+                            ("... of which with position totals above 1e5", "xlarge_position_totals_above_1e5", 1 if tier == "quick" else 3),
+                            ("outputs with a tie", "outputs_with_tie", 300 * k),
                             ("expected refusals", "refusals_expected", 100 * k),
                             ("expected refusals of look-alike schemes", "lookalike_refusals_expected", 50 * k),
                             ("metamorphic checks", "metamorphic_checks", 1000 * k),
